@@ -1,4 +1,4 @@
 ------------------------- MODULE EmissionsConfigGen -------------------------
 EXTENDS EmissionsConfig, Json, Sequences
-Emit == PrintT("@@" \o ToJson([cfg |-> cfg, off |-> Off(cfg), outcomes |-> Outcomes(cfg)]))
+Emit == PrintT("@@" \o ToJson([cfg |-> cfg, off |-> Off(cfg), on |-> Enabled(cfg), outcomes |-> Outcomes(cfg)]))
 =============================================================================
